@@ -156,7 +156,8 @@ get_c = Contract('pywbem/_cim_operations.py::WBEMConnection.GetInstance', return
 delete_c = Contract('pywbem/_cim_operations.py::WBEMConnection.DeleteInstance',
                     modifies=['self._g_deleted'],
                     ensures=[('one-instance-less', 'self._g_deleted == old(self._g_deleted) + 1')],
-                    raises={'Error': Raises(post=[('nothing-deleted', 'self._g_deleted == old(self._g_deleted)')])},
+                    raises={'CIMError': Raises(post=[('nothing-deleted', 'self._g_deleted == old(self._g_deleted)')]),
+                            'ConnectionError': Raises(post=[('nothing-deleted', 'self._g_deleted == old(self._g_deleted)')])},
                     trusted=True)
 path_init_c = Contract('pywbem/_cim_obj.py::CIMInstanceName.__init__', raises={}, trusted=True,
                        notes='A-CIMOBJ: building the subscription path from two instance paths does not raise')
@@ -249,4 +250,40 @@ CONTRACTS.append(Contract(
             'KeyError': Raises(post=[('owned-list-unchanged', f'{OWNEDD} == old({OWNEDD})')])},
     notes="KeyError: inst['PersistenceType'] of an owned destination that has no such property (instances discovered "
           "by add_server from a server that did not set it) - documented here, not a finding of this property",
+))
+
+# ---- remove_server: each owned instance leaves the manager's list exactly when it has been deleted in the server, so
+# that a DeleteInstance failing partway leaves lists that still agree with the server (a retry can continue)
+MANAGER_R = Obj('WBEMSubscriptionManager',
+                _owned_subscriptions=Rec(s1=ListOf(('ref', 'CIMInstance'))),
+                _owned_filters=Rec(s1=ListOf(('ref', 'CIMInstance'))),
+                _owned_destinations=Rec(s1=ListOf(('ref', 'CIMInstance'))),
+                _servers=Rec(s1=Ref('WBEMServer')))
+
+
+def _n(field):
+    return f"(len(self.{field}['s1']) if 's1' in self.{field} else 0)"
+
+
+TOTAL = ' + '.join(_n(f) for f in ('_owned_subscriptions', '_owned_filters', '_owned_destinations'))
+DELETED = '(g_srv.conn._g_deleted - old(g_srv.conn._g_deleted))'
+CONTRACTS.append(Contract(
+    K + 'remove_server',
+    params={'self': MANAGER_R, 'server_id': Lit('s1')},
+    ghosts={'g_srv': SERVER},
+    callees={'_get_server': get_server_c, 'DeleteInstance': delete_c},
+    loops={n: LoopSpec(types={'i': Int, 'inst': Ref('CIMInstance')}, modifies=['inst_list', 'g_srv.conn._g_deleted'],
+                       invariant=[('list-shrinks-with-every-delete',
+                                   'len(inst_list) + (g_srv.conn._g_deleted - g_before) == g_len'),
+                                  ('one-entry-less-per-iteration', 'len(inst_list) == g_len - _i')])
+           for n in (1, 2, 3)},
+    ghost_code={'inst_list = self._owned_subscriptions[server_id]': 'g_before = g_srv.conn._g_deleted\ng_len = len(inst_list)',
+                'inst_list = self._owned_filters[server_id]': 'g_before = g_srv.conn._g_deleted\ng_len = len(inst_list)',
+                'inst_list = self._owned_destinations[server_id]': 'g_before = g_srv.conn._g_deleted\ng_len = len(inst_list)'},
+    ghost_init={'g_before': '0', 'g_len': '0'},
+    ensures=[('everything-owned-was-deleted-in-the-server', f'{DELETED} == old({TOTAL})'),
+             ('nothing-owned-is-left-in-the-lists', f'{TOTAL} == 0')],
+    raises={'CIMError': Raises(post=[('what-is-left-in-the-lists-is-what-was-not-deleted', f'{TOTAL} == old({TOTAL}) - {DELETED}')]),
+            'ConnectionError': Raises(post=[('what-is-left-in-the-lists-is-what-was-not-deleted', f'{TOTAL} == old({TOTAL}) - {DELETED}')]),
+            'ValueError': Raises(post=[('nothing-changed', f'{TOTAL} == old({TOTAL}) and {DELETED} == 0')])},
 ))
